@@ -4,6 +4,9 @@ proof leg            lean/PlinioVerif/Props/C07.lean (open masks: every feature 
                      plan = identity; BatchNorm fuse/fold algebra).
 correspondence leg   export plan of the freshly imported model read back by ID-probing = the model's
                      plan at open masks (every index, original kernel/dilation) on grammar nets.
+                     Channel-level integer nets: `seedStep` (OpenSeed.lean) executed on the weights of
+                     the imported layers = the user's model(x), `pitStep`/`expStep` at open masks = the
+                     same, exactly (Drivers/PITSem.lean).
 oracle leg           on grammar nets (BatchNorm after conv/linear, bias on/off, depthwise, two-input
                      forward), fold_bn on/off, model passed in train or eval mode:
                      model(x) = PIT(model)(x) = PIT(model).export()(x) in eval mode; exported
@@ -16,7 +19,7 @@ import warnings
 import torch
 import torch.nn as nn
 
-from .. import common, pitauto, pitcheck
+from .. import common, pitauto, pitcheck, pitsem
 
 
 def _supernet_case(seed):
@@ -125,6 +128,19 @@ def run(chk):
             for node, pl in (a.get('plan') or {}).items():
                 if pl and pl['regular'] and pl['okept'] != list(range(len(pl['okept']))):
                     chk.violation('C07:export-at-once-drops-features', 'layer n%s keeps %s' % (node, pl['okept']), cid)
+    # the semantic model executed: seedStep with the weights read from the *imported* layers (folded or with
+    # the BatchNorm as sub-layer) = the user's network; pitStep at open masks = the same values
+    results, rows = pitsem.run_sem(chk, pitsem.sem_specs(chk, 40 if chk.quick else 1200, styles=('open',)))
+    for r, row, real, mod in rows:
+        cid = pitsem.sem_case_id(r, row)
+        chk.corr(cid, 'seed=%s pit=%s exp=%s' % (real['seed'], real['pit'], real['exp']),
+                 'seed=%s pit=%s exp=%s' % (mod.get('seed'), mod.get('pit'), mod.get('exp')) if 'err' not in mod else mod['err'],
+                 'integer-valued execution of seedStep/pitStep/expStep at open masks vs model(x), PIT(model)(x), export()(x)')
+        chk.count(('sem', row['request']), nontrivial=bool(r['spec']['fold_bn']) or bool(r.get('standalone_bn')),
+                  bucket='sem:open-masks:fold_bn=%s' % r['spec']['fold_bn'])
+        if not (real['seed'] == real['pit'] == real['exp']):
+            chk.violation('C07:import-changes-function:integer-net', 'model / imported / exported-at-once outputs differ on an '
+                          'integer-valued channel-level network (exact comparison): %s' % row['real'], cid)
     # autoconvert_layers=False with user-placed searchable layers
     for o in common.pmap(pitauto.auto_off_case, [(chk.rng.randint(0, 1 << 30), False) for _ in range(16 if chk.quick else 300)]):
         case = {'kind': 'auto_off', 'seed': o['seed']}
@@ -155,6 +171,11 @@ def run(chk):
 
 def replay(data):
     case = data['case']
+    if case.get('kind') == 'sem':
+        r = pitsem.sem_case(case['spec'])
+        print(r.get('construct_error') or r.get('export_error') or [x['real'] for x in r['rows']])
+        bad = [x for x in r['rows'] if len({kv.split('=')[1] for kv in x['real'].split()}) != 1]
+        return 1 if (bad or r.get('export_error') or r.get('construct_error')) else 0
     if case.get('kind') == 'auto_off':
         o = pitauto.auto_off_case((case['seed'], False))
         print(o)
